@@ -48,6 +48,10 @@ def run(run, tier):
         res.distinct |= {('fast_SIS', i) for i in range(fp.get('distinct', 0))}
     except ImportError:
         extra['fast_SIS'] = 'event-driven component not built yet'
+    # the jump law inside a weighted candidate set is C16's: a change to _ListDict_ that biases the choice is a failing input here too
+    from . import c16 as _c16
+    import EoN.simulation as _sim
+    _c16.selection_law_part(run, 'C02', _sim, run.rng, 300 if tier == 'quick' else 4000)
     if not props['ok']:
         run.violation('C02/proof', 'Props/C02.v no longer checks: %s' % props['log'][-400:], {'broken': 'coq/Props/C02.v', 'log': props['log']}, no_input=True)
     C.proof_coverage(run, props, res.n, min(len(res.distinct), res.nontrivial),
@@ -60,4 +64,7 @@ def run(run, tier):
 
 
 def replay(rp):
+    if rp['replay'].get('listdict'):
+        from . import c16
+        return c16.replay(rp)
     return GL.replay(rp)
